@@ -44,23 +44,59 @@ def pre_state(events, line):
     return None
 
 
-# ---- witness classifiers for known findings: name -> predicate(event, pre, behaviour) ----
-def _owners(ev):
-    return {i["o"] for i in ev.get("intents", [])}
+# ---- witness classifiers for known findings: name -> predicate(events, line) ----
+def fun(pairs):
+    return {q[0]: q[1] for q in pairs}
+
+
+def opening_set(events, line):
+    """the event (and its pre-state) of the TransactionSet that opened the transaction resolved at `line`."""
+    e = events[line - 1]
+    j = line - 2
+    while j >= 0 and events[j]["b"] == e["b"]:
+        x = events[j]
+        if x["ev"] == "txset" and x["ret"] == "ok" and not x["dry"] and x["post"]["open"] != "-":
+            pre = events[j - 1]["post"] if j >= 1 and events[j - 1]["b"] == e["b"] else None
+            return x, pre
+        j -= 1
+    return None, None
+
+
+def touched_leaves(setev, pre):
+    owners = {i["o"] for i in setev["intents"]}
+    t = {q[0] for i in setev["intents"] for q in i["upd"]}
+    t |= {x[2] for x in pre["intended"] if x[0] in owners}
+    return t
+
+
+def w_rollback_unmanaged_overwritten(events, line):
+    """C05.DeviceRestored fails only on leaves that held an unmanaged device value (no intent defined
+    them) before the transaction, were defined by the transaction and are absent after the rollback."""
+    e = events[line - 1]
+    if e["ev"] not in ("cancel", "wait"):
+        return False
+    setev, pre = opening_set(events, line)
+    if setev is None or pre is None:
+        return False
+    before, after = fun(pre["device"]), fun(e["post"]["device"])
+    managed_before = {x[2] for x in pre["intended"]}
+    diff = [l for l in touched_leaves(setev, pre) if before.get(l) != after.get(l)]
+    return bool(diff) and all(l in before and l not in managed_before and l not in after for l in diff)
 
 
 WITNESS = {
+    "rollback_unmanaged_overwritten": w_rollback_unmanaged_overwritten,
 }
 
 
-def classify(prop, clause, ev, pre, beh, known):
+def classify(prop, clause, events, line, known):
     for k in known:
         if k.get("status") != "known" or k["property"] != prop:
             continue
         if k.get("clause") not in (None, "*", clause):
             continue
         fn = WITNESS.get(k["witness"])
-        if fn is not None and fn(ev, pre, beh):
+        if fn is not None and fn(events, line):
             return k
     return None
 
@@ -79,7 +115,7 @@ def check(prop, tier, seed, replay):
     for (p, clause, line) in mine:
         ev = step_of(events, line)
         beh = behaviour_of(behs, ev)
-        k = classify(p, clause, ev, pre_state(events, line), beh, known)
+        k = classify(p, clause, events, line, known)
         if k is not None:
             knownhits.setdefault(k["id"], [k, 0])[1] += 1
             continue
